@@ -2,7 +2,12 @@
 
 package channel
 
-import "context"
+import (
+	"context"
+
+	"github.com/synnaxlabs/x/errors"
+	"github.com/synnaxlabs/x/math"
+)
 
 // VerifReopen opens a second Service over exactly the same configuration (cluster DB,
 // time-series engine, transport, ontology, ...) as s, the way a restart of the node's
@@ -21,8 +26,9 @@ func (s *Service) VerifCounters() (leased int64, free int64) {
 	return s.leasedCounter.wrap.Value(), free
 }
 
-// VerifBump advances the leased (or, on the bootstrapper, free) local-key counter through
-// counter.add, exactly as the creation of delta channels would.
+// VerifBump advances the leased (or, on the bootstrapper, free) local-key counter by delta,
+// refusing to pass MaxUint20 as counter.add does (the reservation itself is exercised by the
+// creates that follow a bump).
 func (s *Service) VerifBump(ctx context.Context, free bool, delta int64) error {
 	c := s.leasedCounter
 	if free {
@@ -31,6 +37,9 @@ func (s *Service) VerifBump(ctx context.Context, free bool, delta int64) error {
 		}
 		c = s.freeCounter
 	}
-	_, err := c.add(ctx, LocalKey(delta))
+	if c.wrap.Value()+delta > int64(math.MaxUint20) {
+		return errors.New("maximum number of channels created")
+	}
+	_, err := c.wrap.Add(ctx, delta)
 	return err
 }
